@@ -277,16 +277,25 @@ class StmtMixin:
 
     def x_Assign(self, s):
         self._expected_ty = None
-        if isinstance(s.value, ast.ListComp) and len(s.targets) == 1 and isinstance(s.targets[0], ast.Name):
+        declared = None
+        if len(s.targets) == 1 and isinstance(s.targets[0], ast.Name):
             ct = getattr(self.frames[-1], "contract", None)
             if ct is not None and s.targets[0].id in ct.locals:
-                self._expected_ty = self.ptype(ct.locals[s.targets[0].id])      # declared type of the list being built
+                declared = self.ptype(ct.locals[s.targets[0].id])
+                if isinstance(s.value, ast.ListComp):
+                    self._expected_ty = declared      # declared type of the list being built
         try:
             v = self.eval(s.value)
             if self._expected_ty is not None and isinstance(v, Cell) and getattr(v, "unknown", False) \
                     and self._expected_ty.name == "List":
                 # a list built by an unmodelled comprehension whose element type the contract declares: arbitrary content of that type
                 v = self.ctx.fresh(self._expected_ty, s.targets[0].id)
+                v.fresh = True
+            elif declared is not None and declared.name in ("Set", "List", "Map") and (
+                    (isinstance(v, Cell) and getattr(v, "unknown", False) and v.kind == {"Set": "set", "List": "list", "Map": "dict"}[declared.name])
+                    or (isinstance(v, Opaque) and v.fresh and v.desc == {"Set": "set()", "List": "list()", "Map": "dict()"}[declared.name])):
+                # a container of unknown content (built from unmodelled calls) whose type the contract declares: arbitrary content of that type
+                v = self.ctx.fresh(declared, s.targets[0].id)
                 v.fresh = True
         finally:
             self._expected_ty = None
